@@ -56,7 +56,9 @@ func thorough(c *core.Ctx, repo string) {
 				mine = true
 			}
 		}
-		if !mine {
+		// the changes seeded for this property (those seeded for a sibling and
+		// reported here through an import are exercised by the sibling's run)
+		if !mine || m.Property != c.Check.ID {
 			continue
 		}
 		patch := filepath.Join(filepath.Dir(mp), "patch.diff")
